@@ -797,6 +797,9 @@ func TestVerifC09(t *testing.T) {
 		depths = append(depths, fmt.Sprintf("%s: alphabet=%d ops, levels completed=%d", cfg.String(), len(c09Alphabet(cfg)), st.DepthDone))
 	}
 	r.Bounds["depth"] = depths
+	if n := c09Ambig.Load(); n > 0 {
+		r.Cap("%d transitions ended in an eviction tie the observation could not resolve; they were checked but not extended", n)
+	}
 	if d := c09Dead.Load(); d != nil {
 		r.Cap("harness problem (not a verdict): %s", *d)
 	}
